@@ -91,7 +91,7 @@ fn iter_semantics<const N: usize>() {
     kani::cover!(N == 0 || f.ranges[0].0.into_u64() > 0, "gap > 0");
     kani::cover!(prev_start == 0, "frame reaches packet number 0");
     kani::cover!(covered, "probe acknowledged");
-    kani::cover!(!covered && x < largest && x > prev_start, "probe falls into a gap");
+    kani::cover!(N == 0 || (!covered && x < largest && x > prev_start), "probe falls into a gap");
 }
 
 #[kani::proof]
